@@ -3,7 +3,7 @@
 run the quick check of the property the change was written for, undo the change. One block per change, format of run_all_mutants.sh."""
 import glob, os, re, subprocess, sys
 out = sys.argv[1] if len(sys.argv) > 1 else "/verif/seeded_pending/detect_own.log"
-dirs = sorted(glob.glob("/verif/seeded/C*/")) + sorted(glob.glob("/verif/seeded_pending/C*r[23]/[0-9]/"))
+dirs = sorted(glob.glob("/verif/seeded/C*/")) + sorted(glob.glob("/verif/seeded_pending/C*r[2345]/[0-9]/"))
 with open(out, "w") as f:
     for d in dirs:
         d = d.rstrip("/")
